@@ -51,7 +51,7 @@ def prove_mat(ctx, name, hyp, mg, **kw):
 
 
 # ------------------------------------------------------------------ replay on the real code
-def replay_screen(kind, nx, param, vals, history_kind=None):
+def replay_screen(kind, nx, param, vals, history_kind=None, state=None):
     import copy
     ips = _ips()
     import aotools.turbulence.turb as turb
@@ -77,6 +77,11 @@ def replay_screen(kind, nx, param, vals, history_kind=None):
     scale = float(numpy.max(numpy.abs(xx)))
     eA = float(numpy.max(numpy.abs(A.dot(zz) - xz))) / scale
     eB = float(numpy.max(numpy.abs(A.dot(zz).dot(A.T) + B.dot(B.T) - xx))) / scale
+    if state is not None:
+        # the witness's screen contents (the row law holds from ANY state of the screen, not only library-generated ones)
+        st = numpy.asarray(state, dtype=float)
+        if st.shape == numpy.shape(scr._scrn) and numpy.all(numpy.isfinite(st)):
+            scr._scrn = numpy.array(st, dtype=numpy.asarray(scr._scrn).dtype)
     R2 = copy.deepcopy(scr._R)
     b = R2.normal(0, 1, size=scr.nx_size)
     before = numpy.array(scr._scrn, dtype=float)
@@ -211,8 +216,25 @@ def case_screen(ctx, kind, nx, param, history, geometry_only=False):
     else:
         ref = before[1, 1]
         want_row = A.dot(Z - ref) + B.dot(b) + ref
+    def rp_d(m):
+        bad, detail = rp(m)
+        if bad:
+            return bad, detail
+        try:
+            state = numpy.asarray(m(before), dtype=float)
+        except Exception:
+            return bad, detail
+        # the covariance function is a cut-point, so the model's scale of the phase need not be the real one: the witness
+        # state is also tried magnified (the row law is affine in the state - any finite state is in the domain)
+        for mag in (1.0, 1e3, 1e6):
+            bad, detail = harness.pristine_call(replay_screen, kind, nx, param, dict(ps=m(ps), r0=m(r0), L0=m(L0)),
+                                                (("r0" if history is True else history) if history else None), state * mag + (mag - 1.0))
+            if bad:
+                detail["screen_state"] = "witness state x %g" % mag
+                return bad, detail
+        return bad, detail
     ctx.prove("(d) new row = A Z + B b with Z at the stencil coordinates and b the next nx draws%s" % ("" if kind == "vk" else " (relative to the reference pixel)"),
-              hyp, all_eq(after[0], want_row), replay=rp, witness_terms=names, timeout_ms=60000)
+              hyp, all_eq(after[0], want_row), replay=rp_d, witness_terms=names, timeout_ms=60000)
     ctx.prove("(d) the generator advanced by exactly nx draws", [], z3.BoolVal(stream.index == idx0 + nxs), replay=rp, axioms=False)
     if kind != "vk":
         kap = var("kappa")
